@@ -217,6 +217,20 @@ def worker(args):
             calls = [n for n in ast.walk(tree) if isinstance(n, ast.Call) and getattr(n.func, 'id', None) == 'run']
             hutil.witness(chk, ex, label)
             hutil.discharge(chk, ex, label + ':gen_src.py-re-exports-and-calls-run', okk and len(calls) == 1 and not calls[0].args, {})
+            # the text handed to read_sources/exec_python is the decoded file content: every input file argument
+            # must be decoded with plain UTF-8 (e.g. 'utf-8-sig' would drop a leading U+FEFF) -- read off the
+            # real argparse parser object
+            import argparse
+            bad = []
+            for sub in (G.exec_python_parser, G.read_sources_parser):
+                for act in sub._actions:
+                    if isinstance(act.type, argparse.FileType):
+                        if act.type._mode != 'r' or (act.type._encoding or '').lower().replace('_', '-') not in ('utf-8', 'utf8'):
+                            bad.append((act.dest, act.type._mode, act.type._encoding))
+            hutil.discharge(chk, ex, label + ':input-files-decoded-as-plain-utf-8', not bad, {})
+            dispatch = {}
+            hutil.discharge(chk, ex, label + ':subcommands-present',
+                            sorted(G.subparsers.choices.keys()) == ['exec-python', 'read-sources'], {})
 
     res = ex.explore(h, max_paths=20000)
     hutil.finish_explore(chk, ex, res, label)
